@@ -35,6 +35,16 @@ EXTRA = {
 def run(tier, seed, model_ok, translator, search=False):
     out = engine.run(tier, seed, model_ok, translator, search=search, prop="C15", weights=engine.C15_WEIGHTS)
     out.rule = "C15 weighting (type-changing actions) of: " + out.rule
+    # oracle health: the consistency clause must actually have been evaluated on most successful consultations of
+    # strict tables with rows; a suspension (taint) that never ends would show up here, not as silence
+    checked = out.dist.get("c15_checked", 0)
+    suspended = out.dist.get("c15_not_claimed:relabelled", 0)
+    floor = 800 if tier == "quick" and not search else 0
+    if checked < floor or suspended > max(200, checked // 2):
+        out.mismatch("oracle health: the C15 consistency clause was evaluated too rarely", {"tier": tier, "seed": seed},
+                     {"c15_checked": checked, "suspended_after_relabelling": suspended}, {"floor": floor})
+    out.notes.append(f"C15 clause evaluated on {checked} successful consultations; suspended (unit setter with a special "
+                     f"unit, until re-validation) on {suspended}")
     return out
 
 
